@@ -22,10 +22,11 @@ namespace PasskeyVerif.C15
 open PasskeyVerif
 
 /-- **Declared lengths are not trusted for reservations**: every `Vec::with_capacity` fed from a sequence's
-size hint in the shared deserialisation helpers is capped at a constant (regenerated from the source). -/
+size hint (directly, or through a local binding) in the shared deserialisation helpers is capped at a constant
+(a literal or a named constant of the file), and no other use of a size hint is left (regenerated from the source). -/
 theorem C15_reservations_capped :
     Generated.Decoders.reservations.all (fun r => match r.2.2 with | some c => c ≤ 4096 | none => false) = true
-    ∧ Generated.Decoders.reservations.length = 2 := by decide
+    ∧ Generated.Decoders.reservations ≠ [] ∧ Generated.Decoders.unfollowedSizeHints = 0 := by decide
 
 /-- **Unknown list entries are buffered before they are judged**, so input errors propagate instead of
 turning a truncated list into one 'unknown value' per declared element (regenerated from the source). -/
